@@ -13,7 +13,11 @@ Conventions
   theorems assume that invariant (`Nodup` of the key list) where a lookup is involved.
 * Error cases are `Except PyErr`; after an exception the state of the callback is not modelled (the
   exception propagates out of `fit`).
-* Not modelled: `verbose=True` printing to stdout; pre-existing content of a log file opened in append
+* `verbose` printing: the plain state machines (`onEpochEnd`, `step`, `run`) are the callbacks with `verbose` not the
+  singleton `True`; the section "verbose printing" below models the `if self.verbose is True:` branches and the ORDER OF
+  EFFECTS (history appended, header printed, values formatted, line printed, CSV row written) with the state that is left
+  behind when `{v:.6f}` raises (`onEpochEndV`, `runV`, `Effects`).
+* Not modelled: pre-existing content of a log file opened in append
   mode (the model's `log` is the list of rows THIS object appended).
 * Names are arbitrary strings.  Subscripting (`ev[name]`, `stats[name]`) calls `__getattr__` directly and is
   modelled as the function it is (`getItem`, `obsStatGet`); ATTRIBUTE syntax (`ev.name`, `getattr(ev, name)`)
@@ -24,6 +28,7 @@ Conventions
 This file is import-free (only QV.Model.*).
 -/
 import QV.Model.Hilbert
+import QV.Model.PyFlag
 
 namespace QV.Cb
 
@@ -314,6 +319,143 @@ def step (c : ObservableEvaluator W V) (s : EvalState (Dict String V) V) :
 
 def run (c : ObservableEvaluator W V) :
     EvalState (Dict String V) V → List (Ev W) → Except PyErr (EvalState (Dict String V) V) := runWith c.step
+
+end ObservableEvaluator
+
+/-! ### verbose printing (metric_evaluator.py:139-141, observable_evaluator.py:191-202)
+
+`if self.verbose is True:` is an IDENTITY test (a truthy `1` / `numpy.True_` prints nothing). The printed line formats
+every value with `{v:.6f}`, which RAISES for a value that is not a real number (a `str`, `None`, a tensor with more than
+one element, a list): at that moment the record is already appended to `past_values` and `last` is set, the epoch header is
+already on stdout, the CSV row is NOT yet written, and the exception propagates out of `on_epoch_end` (later callbacks of
+the list and the rest of `fit` do not run). -/
+
+/-- everything one call (or a run) has DONE when it returns or raises: the callback's state as it is then, the chunks
+written to stdout in order, and the exception that propagates (if any) -/
+structure Effects (S : Type) where
+  state : S
+  out : List String
+  err : Option PyErr
+
+/-- forget the partial effects: the result as the plain state machines report it -/
+def Effects.toExcept {S : Type} (r : Effects S) : Except PyErr S :=
+  match r.err with
+  | none => .ok r.state
+  | some e => .error e
+
+/-- `sep.join(parts)` -/
+def joinWith (sep : String) : List String → String
+  | [] => ""
+  | [a] => a
+  | a :: rest => a ++ sep ++ joinWith sep rest
+
+/-- one item `f"{k}{mid}{v:.6f}"` of the joined line -/
+def fmtItem {V : Type} (fmt : V → Except PyErr String) (mid : String) (kv : String × V) : Except PyErr String :=
+  match fmt kv.2 with
+  | .ok t => .ok (kv.1 ++ mid ++ t)
+  | .error e => .error e
+
+/-- `"\t".join(f"{k}{mid}{v:.6f}" for k, v in d.items())`: the generator is consumed left to right, the first value whose
+formatting raises aborts the join. `fmt v` is Python's `format(v, ".6f")` (the text, or the exception). -/
+def fmtJoin {V : Type} (fmt : V → Except PyErr String) (mid : String) (d : Dict String V) : Except PyErr String :=
+  match mapE (fmtItem fmt mid) d with
+  | .ok parts => .ok (joinWith "\t" parts)
+  | .error e => .error e
+
+namespace MetricEvaluator
+variable {W V : Type}
+
+/-- `on_epoch_end` of a `MetricEvaluator(…, verbose=verbose)` as coded (metric_evaluator.py:129-146), effect by effect:
+gate; evaluate; `last`/`past_values` updated; `if self.verbose is True:` print `Epoch: e\t` (no newline), then the joined
+`name = value` line (raises if a value cannot be formatted); then the CSV row. -/
+def onEpochEndV (c : MetricEvaluator W V) (verbose : PyFlag) (fmt : V → Except PyErr String)
+    (s : EvalState V V) (e : Int) (w : W) : Effects (EvalState V V) :=
+  match gate e c.period with
+  | .error err => ⟨s, [], some err⟩
+  | .ok false => ⟨s, [], none⟩
+  | .ok true =>
+    let vals := c.evalAll w
+    let s1 : EvalState V V := { s with last := vals, past := s.past ++ [(e, vals)] }
+    let hdr := "Epoch: " ++ toString e ++ "\t"
+    let pr : List String × Option PyErr :=
+      if verbose.isTrueSingleton then
+        match fmtJoin fmt " = " s1.last with
+        | .error err => ([hdr], some err)
+        | .ok line => ([hdr, line ++ "\n"], none)
+      else ([], none)
+    match pr.2 with
+    | some err => ⟨s1, pr.1, some err⟩
+    | none =>
+      if c.log then
+        match c.logRow e s1.last with
+        | .error err => ⟨s1, pr.1, some err⟩
+        | .ok row => ⟨{ s1 with log := s1.log ++ [row] }, pr.1, none⟩
+      else ⟨s1, pr.1, none⟩
+
+/-- the verbose callback driven through an event stream: effects accumulate, the first exception ends the run -/
+def runV (c : MetricEvaluator W V) (verbose : PyFlag) (fmt : V → Except PyErr String) :
+    EvalState V V → List (Ev W) → Effects (EvalState V V)
+  | s, [] => ⟨s, [], none⟩
+  | s, .epochEnd e w :: rest =>
+    let r := c.onEpochEndV verbose fmt s e w
+    match r.err with
+    | some err => ⟨r.state, r.out, some err⟩
+    | none => let r2 := runV c verbose fmt r.state rest; ⟨r2.state, r.out ++ r2.out, r2.err⟩
+  | s, _ :: rest => runV c verbose fmt s rest
+
+end MetricEvaluator
+
+namespace ObservableEvaluator
+variable {W V : Type}
+
+/-- one entry of `partially_formatted` rendered: `"  {k}:\n    " + "\t".join(f"{s}: {sv:.6f}" …)` -/
+def verboseItem (fmt : V → Except PyErr String) (od : String × Dict String V) : Except PyErr String :=
+  match fmtJoin fmt ": " od.2 with
+  | .ok t => .ok ("  " ++ od.1 ++ ":\n    " ++ t)
+  | .error e => .error e
+
+/-- the text printed by observable_evaluator.py:192-202 after the header: per observable
+`"  {k}:\n    " + "\t".join(f"{s}: {sv:.6f}" …)`, joined by newlines; observables are formatted in dict order and the
+first failure aborts before anything but the header is printed. -/
+def verboseBody (fmt : V → Except PyErr String) (last : Dict String (Dict String V)) : Except PyErr String :=
+  match mapE (verboseItem fmt) last with
+  | .ok parts => .ok (joinWith "\n" parts)
+  | .error e => .error e
+
+/-- `on_epoch_end` of an `ObservableEvaluator(…, verbose=verbose)` as coded (observable_evaluator.py:184-214). -/
+def onEpochEndV (c : ObservableEvaluator W V) (verbose : PyFlag) (fmt : V → Except PyErr String)
+    (s : EvalState (Dict String V) V) (e : Int) (w : W) : Effects (EvalState (Dict String V) V) :=
+  match gate e c.period with
+  | .error err => ⟨s, [], some err⟩
+  | .ok false => ⟨s, [], none⟩
+  | .ok true =>
+    let vals := c.statistics w
+    let s1 : EvalState (Dict String V) V := { s with last := vals, past := s.past ++ [(e, vals)] }
+    let hdr := "Epoch: " ++ toString e ++ "\n"
+    let pr : List String × Option PyErr :=
+      if verbose.isTrueSingleton then
+        match verboseBody fmt s1.last with
+        | .error err => ([hdr], some err)
+        | .ok body => ([hdr, body ++ "\n"], none)
+      else ([], none)
+    match pr.2 with
+    | some err => ⟨s1, pr.1, some err⟩
+    | none =>
+      if c.log then
+        match dictWriterRow c.csvFields (rowDict e s1.last) true with
+        | .error err => ⟨s1, pr.1, some err⟩
+        | .ok row => ⟨{ s1 with log := s1.log ++ [row] }, pr.1, none⟩
+      else ⟨s1, pr.1, none⟩
+
+def runV (c : ObservableEvaluator W V) (verbose : PyFlag) (fmt : V → Except PyErr String) :
+    EvalState (Dict String V) V → List (Ev W) → Effects (EvalState (Dict String V) V)
+  | s, [] => ⟨s, [], none⟩
+  | s, .epochEnd e w :: rest =>
+    let r := c.onEpochEndV verbose fmt s e w
+    match r.err with
+    | some err => ⟨r.state, r.out, some err⟩
+    | none => let r2 := runV c verbose fmt r.state rest; ⟨r2.state, r.out ++ r2.out, r2.err⟩
+  | s, _ :: rest => runV c verbose fmt s rest
 
 end ObservableEvaluator
 
